@@ -110,8 +110,8 @@ func aeadSection(x *h.X) {
 				nonces = append(nonces, nonce)
 			}
 			distinct(x, "nonce-repeats", cfg, "IV/nonce fields", nonces)
-			if end != len(nonces)*n {
-				x.Fail("tape-range", "%s: %d calls consumed %d tape bytes, want %d x %d", cfg, len(nonces), end, len(nonces), n)
+			if end < len(nonces)*n { // surplus draws are allowed, a call drawing LESS than the field length is not
+				x.Fail("tape-range", "%s: %d calls consumed %d tape bytes, want at least %d x %d", cfg, len(nonces), end, len(nonces), n)
 			}
 		}
 	}
@@ -254,8 +254,8 @@ func envelopeSection(x *h.X) {
 			for _, name := range names {
 				distinct(x, "envelope-field-repeats", cfg, name, byName[name])
 			}
-			if end != len(calls)*span {
-				x.Fail("tape-range", "%s: %d calls consumed %d tape bytes, want %d x %d", cfg, len(calls), end, len(calls), span)
+			if end < len(calls)*span { // surplus draws are allowed
+				x.Fail("tape-range", "%s: %d calls consumed %d tape bytes, want at least %d x %d", cfg, len(calls), end, len(calls), span)
 			}
 		}
 	}
